@@ -11,7 +11,7 @@
    [sub_offset ss i] number of sub-pixels of the slim pixels before i, [sz ss i] sub-size of slim pixel i,
    [uniform m s] the sub-size map of BorderRelocator(mask, sub_size = s): s for every unmasked pixel. *)
 From Coq Require Import Reals List.
-From PAV Require Import Base.NumOps Base.Res Model.C18 Proofs.C18 Proofs.C18idx Proofs.C18x Proofs.C18y.
+From PAV Require Import Base.NumOps Base.Res Model.C18 Proofs.C18 Proofs.C18idx Proofs.C18x Proofs.C18y Proofs.C18h.
 Import ListNotations.
 Local Open Scope R_scope.
 
@@ -108,6 +108,28 @@ Proof. exact mapper_uses_data_border. Qed.
 Theorem C18_mapper_without_relocator : forall (data mesh : list (R * R)),
   @mapper_grids_from ROps None data mesh = Ok (data, mesh).
 Proof. exact mapper_without_relocator. Qed.
+
+(* ---- histories: any sequence of calls (relocated_grid_from, relocated_mesh_grid_from, mapper_grids_from with or
+        without a preloaded data grid, reads of sub_border_slim / sub_border_grid) on BorderRelocator objects
+        r = 0, 1, .. = BorderRelocator(mask, nth r subs) of one mask, starting from fresh objects: the state the objects
+        keep (the stored cached_property) never shows: call number i returns the pure function of ITS OWN arguments *)
+Theorem C18_history_is_stateless : forall m (ps origin : R * R) subs (cs : list (@call ROps)),
+  @run_history ROps m ps origin subs (fresh subs) cs = map (@pure_call ROps m ps origin subs) cs.
+Proof. exact (@history_is_stateless ROps). Qed.
+(* in particular a mesh relocation made after ANY earlier calls uses the border of the data grid passed with it
+   (with C18_mesh_uses_data_border: grid[sub_border_slim] of THAT grid), not of a grid relocated before *)
+Theorem C18_history_mesh_uses_own_data_border : forall m (ps origin : R * R) subs (pre post : list (@call ROps)) r g v,
+  nth (length pre) (@run_history ROps m ps origin subs (fresh subs) (pre ++ @CMesh ROps r g v :: post)) (@ONats ROps (Ok []))
+  = @OPts ROps (@relocated_mesh_grid_from ROps m (nth r subs []) g v).
+Proof. exact (@history_mesh_own_border ROps). Qed.
+(* and mapper_grids_from with a preloaded relocated data grid p (the data-grid step is skipped) passes p on and
+   relocates the mesh against the border of p *)
+Theorem C18_history_mapper_preloaded : forall m (ps origin : R * R) subs (pre post : list (@call ROps)) r p g v,
+  nth (length pre) (@run_history ROps m ps origin subs (fresh subs) (pre ++ @CMapper ROps (Some r) (Some p) g v :: post))
+      (@ONats ROps (Ok []))
+  = @OPair ROps (match @relocated_mesh_grid_from ROps m (nth r subs []) p v with
+                 | Raise e => Raise e | Ok mesh' => Ok (p, mesh') end).
+Proof. exact (@history_mapper_preloaded_own_border ROps). Qed.
 
 (* ---- sub-border indexes: one per border pixel, inside that pixel's block of sub-pixels, the LAST of those at
         maximal distance (pixel units) from the centre of the bounding box of the unmasked sub-pixel centres *)
@@ -243,6 +265,9 @@ Print Assumptions C18_mesh_uses_data_border.
 Print Assumptions C18_grid_is_mesh_on_itself.
 Print Assumptions C18_mapper_uses_data_border.
 Print Assumptions C18_mapper_without_relocator.
+Print Assumptions C18_history_is_stateless.
+Print Assumptions C18_history_mesh_uses_own_data_border.
+Print Assumptions C18_history_mapper_preloaded.
 Print Assumptions C18_sub_border_is_farthest_subpixel.
 Print Assumptions C18_sub_border_in_block_and_farthest.
 Print Assumptions C18_furthest_is_last_maximiser.
